@@ -166,6 +166,32 @@ func seqProfile0(prop, tier string) *SeqProfile {
 			},
 			Rule: "C19: every Open result of up to three handles (both modes, CreateDirs on/off, Check on/off with a damaged head index, missing directory) judged against Handles.tla; Publish/Delete on read-only handles; read-only answers compared with the writer's last answers on the same files; SHA-256 of all log files before/after each read-only session.",
 		}
+	case "C13":
+		g.Steps = 20
+		q := []string{"n", "a", "b", "g", "k17"}
+		return &SeqProfile{Prop: prop, Gen: g, NRandom: tierN(tier, 360, 5000), Module: "TraceAbs.tla", Cfg: "TraceAbs.cfg",
+			Obs: Obs{Scan: true, Stat: true, Size: true, JudgeLayout: true, JudgeOpen: true, Get: true, Key: true, Time: true, KeyQ: q, Maxes: []int64{1, 32}},
+			Hist: func(id int, seed int64) *History {
+				switch id % 6 {
+				case 0:
+					return genSweepHistory(id/6, seed)
+				case 1, 2, 3:
+					return genSynthHistory(id, seed)
+				}
+				gg := g
+				gg.TimeMode = "mono"
+				return genHistory(id, seed, gg)
+			},
+			Rule: "C13: (i) every file of every state parses completely with the reference decoder and re-encodes to identical bytes (layout events), (ii) directories written by the reference ENCODER (both versions, four index layouts, index absent or in the other version, holes, empty head) are opened, read and extended by the real code, (iii) key/value lengths 0..300 (+64KiB..1MiB) and times over the int64 microsecond range through the file reader (head) and the mmap reader (closed segments), (iv) Size(m) against the documented layout and against the bytes actually added, Stat against the file-system totals.",
+		}
+	case "C07":
+		return &SeqProfile{Prop: prop, NRandom: 0, Module: "TraceFrames.tla", Cfg: "TraceFrames.cfg",
+			Design: []DesignRun{{Module: "Frames.tla", Cfg: "frames.cfg", Workers: 4, Timeout: 5 * time.Minute,
+				Note: "Frames.tla: Recover/Check operators against RecoverOK/CheckOK for every (n, junk class, index class)"}},
+			Extra: runFrames,
+			Rule: "C07: a case is one damaged head segment (log bytes + index bytes); for each: Check, Recover, Check, Recover again, reopen+append, Check; the reference codec projects the files before/after to (valid records, junk class, index class) and TLC judges RecoverOK / CheckOK. Enumerated: every truncation length (0, >=8), every byte position (bit flip) after the header, zero/0xFF/random tails of every length, index missing / truncated at every length / every byte changed / extra items, x four index configurations, V2 (V1: truncation and index damage only).",
+			Assume: []string{"the reference parser defines which records are valid"},
+		}
 	case "C15":
 		g.WTrim, g.WCompact, g.WDelete, g.WDeleteMulti, g.WPublish = 22, 0, 8, 3, 45
 		g.TrimKinds = []string{"offset", "count", "size", "age"}
